@@ -907,19 +907,42 @@ fn pair_space() -> Vec<Scenario> {
     v
 }
 
-/// Clamp a structurally decoded scenario into the generator's domain (fuzz tier).
+/// Clamp a structurally decoded scenario (engine::bytesde) into exactly the domain of
+/// `strategy()` (sub `monitors`): the configuration ranges of `cfg_strategy` (mtu = header of the
+/// primary connection's family + 1..=100 | 1460 bytes of payload room, loopback_mtu = 60 + 1..=2000
+/// | 65476, caps 1..=200 | 65536, retx 1..=4 / 2..=5), the program ranges of `side_strategy`
+/// (write_all of 1..=60 | 100..=400 bytes, reader buffers 1..=64 | 2048), `plan_strategy` (no
+/// by_kind table, no black-holing), `udp_strategy` (limit-200..=limit+40 | limit+70000),
+/// `extra_strategy` (0..=MAX_EXTRA connections) and the adjustments of `strategy()`'s own
+/// `prop_map` (UDP guard, `fit_mtu`).
 pub fn fuzz_sanitize(sc: &mut Scenario) -> bool {
-    sc.cfg.mtu = 41 + sc.cfg.mtu % 1480;
-    sc.cfg.loopback_mtu = 61 + sc.cfg.loopback_mtu % 65_476;
-    sc.cfg.send_cap = 1 + sc.cfg.send_cap % 65_536;
-    sc.cfg.recv_cap = 1 + sc.cfg.recv_cap % 65_536;
-    sc.cfg.retx_threshold = 1 + sc.cfg.retx_threshold % 4;
-    sc.cfg.retx_max = 2 + sc.cfg.retx_max % 4;
+    let hdr = if sc.v6 { 60 } else { 40 };
+    let mss = match sc.cfg.mtu % 108 {
+        x @ 0..=99 => x + 1,
+        _ => 1460,
+    };
+    let lomss = match sc.cfg.loopback_mtu % 2008 {
+        x @ 0..=1999 => x + 1,
+        _ => 65_476,
+    };
+    let cap = |c: usize| match c % 210 {
+        x @ 0..=199 => x + 1,
+        _ => 65_536,
+    };
+    sc.cfg = Cfg {
+        mtu: hdr + mss,
+        loopback_mtu: (60 + lomss).min(65_536),
+        send_cap: cap(sc.cfg.send_cap),
+        recv_cap: cap(sc.cfg.recv_cap),
+        retx_threshold: 1 + sc.cfg.retx_threshold % 4,
+        retx_max: 2 + sc.cfg.retx_max % 4,
+    };
     fn fix_side(s: &mut Side) {
         s.w.truncate(6);
         for w in s.w.iter_mut() {
             match w {
-                WOp::Write(n) => *n = 1 + *n % 400,
+                // the generator draws 1..=60 (4/5) or 100..=400 (1/5)
+                WOp::Write(n) => *n = if *n % 8 == 7 { 100 + (*n / 8) % 301 } else { 1 + (*n / 8) % 60 },
                 WOp::TryWrite(n) => *n = 1 + *n % 80,
                 WOp::Sleep(k) => *k = 1 + *k % 3,
             }
@@ -933,11 +956,14 @@ pub fn fuzz_sanitize(sc: &mut Scenario) -> bool {
             }
         }
         s.bufs.truncate(2);
-        for b in s.bufs.iter_mut() {
-            *b = 1 + *b % 2048;
-        }
         if s.bufs.is_empty() {
-            s.bufs.push(64);
+            s.bufs.push(2048);
+        }
+        for b in s.bufs.iter_mut() {
+            *b = match *b % 72 {
+                x @ 0..=63 => x + 1,
+                _ => 2048,
+            };
         }
     }
     fix_side(&mut sc.client);
@@ -950,14 +976,14 @@ pub fn fuzz_sanitize(sc: &mut Scenario) -> bool {
         fix_side(&mut x.client);
         fix_side(&mut x.server);
     }
-    sc.plan.by_id.truncate(60);
+    sc.plan.by_id.truncate(59);
     for f in sc.plan.by_id.iter_mut() {
         if let Fate::Hold(k) = f {
             *k = 1 + *k % 5;
         }
     }
     sc.plan.by_kind.clear();
-    sc.plan.prio.truncate(60);
+    sc.plan.prio.truncate(59);
     for p in sc.plan.prio.iter_mut() {
         *p %= 4;
     }
@@ -967,9 +993,17 @@ pub fn fuzz_sanitize(sc: &mut Scenario) -> bool {
     sc.udp.truncate(4);
     for p in sc.udp.iter_mut() {
         p.from %= 2;
-        if p.delta != 70_000 {
-            p.delta = p.delta.clamp(-200, 40);
-        }
+        // 0 | 1 | -3..=-1 | 2..=40 | -200..=-4 | 70000, roughly with the generator's weights
+        let x = p.delta as u32;
+        let y = (x / 16) as i32;
+        p.delta = match x % 16 {
+            0..=3 => 0,
+            4..=7 => 1,
+            8 | 9 => -(1 + y % 3),
+            10 | 11 => 2 + y % 39,
+            12..=14 => -(4 + y % 197),
+            _ => 70_000,
+        };
         // same guard as the generator: no 130 KB buffers on a default-sized loopback
         if p.delta > 1000 && p.lo && sc.cfg.loopback_mtu > 10_000 {
             p.delta = 1;
